@@ -733,7 +733,7 @@ def run_api_sequence(ctx, codes, case, rng):
     ctx.tag("api-sequence")
     for step in range(14):
         op = ["delineate", "flowpaths", "boundary", "dict", "relations", "river",
-              "intersect", "delineate"][int(rng.integers(0, 8))]
+              "intersect", "delineate", "new-codes", "edit-a-clone"][int(rng.integers(0, 10))]
         if state["ref"] is None and op in ("flowpaths", "boundary", "intersect", "dict"):
             op = "delineate"
         ops.append(op)
@@ -767,6 +767,46 @@ def run_api_sequence(ctx, codes, case, rng):
                           state["ref"], "api-sequence|dict-area", c2, None)
             elif op == "relations":
                 check_relations(ctx, cat, model, c2)
+            elif op == "new-codes":
+                # the caller assigns another array of flow directions to the grid of the
+                # catchment (data setter): everything asked afterwards is about them
+                for _try in range(20):
+                    newc = gen_forest(rng, nr, nc, int(rng.integers(0, 3)))
+                    m2 = FlowGraph(np.asarray(newc, dtype=np.int64).tolist())
+                    if not m2.has_cycle():
+                        break
+                else:
+                    continue
+                ctx.tag("api-sequence:new-codes-assigned")
+                cat.flowdir.data = np.asarray(newc, dtype=np.int64)
+                fd.data = np.asarray(newc, dtype=np.int64)
+                codes, model = np.asarray(newc, dtype=np.int64), m2
+                sizes = [len(model.area(o)) for o in range(n)]
+                big = [int(o) for o in np.argsort(sizes)[::-1][:6]]
+                c2 = dict(c2, codes_now=codes)
+                case = dict(case, codes_now=codes)
+                check_relations(ctx, cat, model, c2)
+                o = big[int(rng.integers(0, len(big)))]
+                ref = check_area(ctx, cat, model, o, [], dict(c2, outlet=o, inlets=[]),
+                                 cyc=False)
+                state.update(ref=ref, outlet=o, inlets=())
+            elif op == "edit-a-clone":
+                # a copy of the catchment is edited (other directions written into the
+                # cells of *its* grid, another area delineated): the original is not
+                ctx.tag("api-sequence:clone-edited")
+                cl = cat.clone()
+                dd = cl.flowdir.data
+                for _k in range(3):
+                    dd[int(rng.integers(0, nr)), int(rng.integers(0, nc))] = \
+                        [0, 1, 4, 16, 64][int(rng.integers(0, 5))]
+                cl.flowdir.fill(0) if rng.random() < 0.3 else None
+                try:
+                    cl.delineate_area(int(rng.integers(0, n)))
+                except ValueError:
+                    pass
+                check_relations(ctx, cat, model, c2)
+                if state["ref"] is not None:
+                    check_flowpaths(ctx, cat, model, state["outlet"], state["ref"], c2)
             elif op == "river":
                 check_river(ctx, fd, model, int(rng.integers(0, n)), c2, False)
             elif op == "intersect" and len(state["ref"] or ()) > 0:
